@@ -110,6 +110,68 @@ var c26Opaque = []struct {
 	trigger func(f *syntax.File, src string) bool
 }{
 	{
+		// unset 'name[sub]' run by a function on an array that is local to one
+		// of its callers removes the element from a copy that is local to the
+		// callee: the caller still sees the element (Runner.unsetElem passes
+		// the variable on with its Local flag, unlike a naked assignment)
+		"unset-element-of-callers-local-array-stays-in-callee",
+		func(f *syntax.File, src string) bool {
+			// names declared local per function, names whose element is unset per function
+			locals := map[*syntax.FuncDecl]map[string]bool{}
+			unsets := map[*syntax.FuncDecl]map[string]bool{}
+			add := func(m map[*syntax.FuncDecl]map[string]bool, fn *syntax.FuncDecl, name string) {
+				if m[fn] == nil {
+					m[fn] = map[string]bool{}
+				}
+				m[fn][name] = true
+			}
+			c26WalkStmts(f, func(st *syntax.Stmt, stack []syntax.Node) {
+				var fn *syntax.FuncDecl
+				for _, n := range stack {
+					if d, ok := n.(*syntax.FuncDecl); ok {
+						fn = d // innermost
+					}
+				}
+				if fn == nil {
+					return
+				}
+				switch cm := st.Cmd.(type) {
+				case *syntax.DeclClause:
+					if cm.Variant.Value == "local" || cm.Variant.Value == "declare" {
+						for _, a := range cm.Args {
+							if a.Name != nil {
+								add(locals, fn, a.Name.Value)
+							}
+						}
+					}
+				case *syntax.CallExpr:
+					if c26CallName(st) != "unset" {
+						return
+					}
+					for _, a := range cm.Args[1:] {
+						w := strings.Trim(c26Print(a), "'\"")
+						if name, _, ok := strings.Cut(w, "["); ok && strings.HasSuffix(w, "]") {
+							add(unsets, fn, name)
+						}
+					}
+				}
+			})
+			for fn, names := range unsets {
+				for name := range names {
+					if locals[fn][name] {
+						continue
+					}
+					for other, l := range locals {
+						if other != fn && l[name] {
+							return true
+						}
+					}
+				}
+			}
+			return false
+		},
+	},
+	{
 		// $PIPESTATUS is not implemented (expands to nothing)
 		"pipestatus-unsupported",
 		func(f *syntax.File, src string) bool { return strings.Contains(src, "PIPESTATUS") },
